@@ -10,10 +10,11 @@ RULE = ("one case = one simulated run: a program (per-thread op lists), per-run 
 
 
 QUICK_SCALE = 3
+THOROUGH_SCALE = 3
 
 
 def J(name, wl, quick, thorough, **params):
-    d = {"name": name, "wl": wl, "quick": int(quick * QUICK_SCALE), "thorough": thorough, "params": {}}
+    d = {"name": name, "wl": wl, "quick": int(quick * QUICK_SCALE), "thorough": int(thorough * THOROUGH_SCALE), "params": {}}
     for k, v in params.items():
         if k in ("limits", "time_ms", "fork_each"):
             d[k] = v
